@@ -34,12 +34,36 @@ func route(host, backend string, ttl time.Duration) liteconfig.Route {
 	return liteconfig.Route{Host: []string{host}, Backend: []string{backend}, CachePingTTL: configutil.Duration(ttl)}
 }
 
+var initialProto *config.Config
+
 func initialConfig() *config.Config {
+	if initialProto != nil {
+		return cloneCfg(initialProto)
+	}
 	c := config.DefaultConfig
+	c.Config.Status.Favicon = "data:image/png;base64,AAAA" // instead of 5 KB of base64 in every JSON encode
 	c.Config.Bind = "127.0.0.1:25565"
 	c.Config.Lite.Enabled = true
 	c.Config.Lite.Routes = []liteconfig.Route{route("play.example.test", "backend.example.test:25565", 30*time.Second)}
-	return cloneCfg(&c)
+	initialProto = cloneCfg(&c)
+	return cloneCfg(initialProto)
+}
+
+var contentCache = map[string]string{}
+
+// contentOf returns the JSON content of a candidate kind ("" = the initial configuration).
+func contentOf(kind string) string {
+	if c, ok := contentCache[kind]; ok {
+		return c
+	}
+	var c string
+	if kind == "" {
+		c = content(initialConfig())
+	} else {
+		c = content(buildCandidate(kind))
+	}
+	contentCache[kind] = c
+	return c
 }
 
 func cloneCfg(c *config.Config) *config.Config {
@@ -158,7 +182,7 @@ func (m *model) apply(kind string, withVersion, versionIsCurrent bool) outcome {
 	if kind == cNil {
 		return outcome{}
 	}
-	cc := content(buildCandidate(kind))
+	cc := contentOf(kind)
 	if cc == m.cur {
 		return outcome{Unchanged: true}
 	}
